@@ -60,7 +60,10 @@ def run_verus_for(pid, u, repo, tier):
     failed_mine, failed_other, failed_unlabelled = [], [], []
     for e in r.failed:
         labs = e["labels"]
-        if any(pid in ps for ps, _ in labs):
+        if pid == "C12" and e.get("panic_in_real_code"):
+            e = dict(e); e["labels"] = [(("C12",), "no_panic")]
+            failed_mine.append(e)
+        elif any(pid in ps for ps, _ in labs):
             failed_mine.append(e)
         elif labs:
             failed_other.append(e)
@@ -68,6 +71,9 @@ def run_verus_for(pid, u, repo, tier):
             failed_unlabelled.append(e)
     # obligations: the labelled clauses of this property + every verified function of the unit
     n_fn = r.verified + r.errors
+    if pid == "C12":
+        mine_labels = ["no_panic_in_" + f["function"].split("::")[-2] + "::" + f["function"].split("::")[-1] for f in r.func_results if f.get("mode") == "exec"][:400]
+        info["labelled_clauses_for_property"] = mine_labels[:12]
     res["obligations"] = len(mine_labels) + n_fn
     failed_label_names = set()
     for e in failed_mine:
